@@ -812,79 +812,29 @@ theorem writtenNode_eq (p : Problem) (hI : Inv p) (s : Slot) : writtenNode p s =
       simp [hr', hI.reach s hr']
   cases h : p.slot s <;> simp [writtenNode, key, α, h]
 
-/-- a fill transform is only printed between parentheses the FILL entry already had -/
-def FillTransformsHadParens (p : Problem) : Prop :=
-  ∀ i u t, p.field (.cellFillUni i) = .ptr (some u) → p.field (.cellFillTr i) = .ptr (some t) → p.fillParens i = true
-
-/-- the statement at full strength: what is printed is the rendering of the abstract problem -/
-def C03_written_statement : Prop :=
-  ∀ p : Problem, Inv p → ∀ k : WKey, written p k = render (α p) k
-
-/-- **C03_written_partial.**  Under `Inv`, every position of the file prints the value its quantity has in the
-    abstract problem (numbers of pointees for references, the sign for the density mode, the modifier for the
-    boundary flags, nothing for a deleted pointer) — except a transform set on a FILL that was read without one. -/
-theorem C03_written_partial (p : Problem) (hI : Inv p) (hF : FillTransformsHadParens p) (k : WKey) :
-    written p k = render (α p) k := by
+/-- **C03_written.**  Under `Inv`, every position of the file prints the value its quantity has in the abstract
+    problem: the node-backed quantities their value (the semantic node is the node at the tree position), references
+    the number of the pointee (material, universe, fill universe and transform, surface transform / periodic surface
+    with its sign), the density the sign of its mode, the surface the modifier of its boundary flags, and nothing
+    for a deleted pointer.  (Full strength since the repair of finding C03-F1: a transform set on a FILL that was
+    read without one is written too.) -/
+theorem C03_written (p : Problem) (hI : Inv p) (k : WKey) : written p k = render (α p) k := by
   cases k with
   | node s => exact writtenNode_eq p hI s
   | cellMaterial i => simp only [written, render, α_field, nodeNumber_eq]
   | cellDensitySign i => simp only [written, render, α_field]
   | cellU i => simp only [written, render, α_field]
   | cellFill i => simp only [written, render, α_field]
-  | cellFillTr i =>
-    simp only [written, render, α_field, nodeNumber_eq]
-    split
-    · rename_i u t hu ht
-      simp [hF i u t hu ht]
-    · rfl
+  | cellFillTr i => simp only [written, render, α_field, nodeNumber_eq]
   | surfModifier i => simp only [written, render, α_field]
   | surfPointer i => simp only [written, render, α_field, nodeNumber_eq]
   | field f => rfl
 
-/-- `C03_written` for the problems edits can reach from files whose filled cells all carry their transform -/
-theorem C03_written (p : Problem) (hI : Inv p) (hF : FillTransformsHadParens p) :
-    ∀ k, written p k = render (α p) k := C03_written_partial p hI hF
+/-- the statement as DESIGN 6 gives it -/
+def C03_written_statement : Prop :=
+  ∀ p : Problem, Inv p → ∀ k : WKey, written p k = render (α p) k
 
-/-- witness: one cell filled with universe 0, a transform TR5 set on its fill, no parentheses in the FILL tree -/
-def fillWitness : Problem where
-  heap := fun _ => { value := some (.num 5), negatable := false, isNeg := none }
-  next := 1
-  slot := fun s => if s = .trNumber 0 then some 0 else none
-  tree := fun s => if s = .trNumber 0 then some 0 else none
-  field := fun f => if f = .cellFillUni 0 then .ptr (some 0) else if f = .cellFillTr 0 then .ptr (some 0)
-    else if f = .uniNumber 0 then .int 3 else .absent
-  impKeys := fun _ => []
-  ncells := 1
-  nsurfs := 0
-  nmats := 0
-  ntrs := 1
-  nunis := 1
-  surfKind := fun _ => .generic
-  nconst := fun _ => 0
-  fillParens := fun _ => false
-
-theorem fillWitness_inv : Inv fillWitness := by
-  constructor
-  · intro s s' id h h'
-    left
-    simp only [fillWitness] at h h'
-    split at h <;> split at h' <;> simp_all
-  · intro s id h
-    simp only [fillWitness] at h
-    split at h
-    · cases h; show 0 < 1; decide
-    · cases h
-  · intro i a
-    simp [fillWitness]
-  · intro s _
-    rfl
-
-/-- **C03_written_refuted** (known finding C03-F1): `fill.transform = t` on a FILL read without a transform is
-    accepted and not written. -/
-theorem C03_written_refuted : ¬ C03_written_statement := by
-  intro h
-  have := h fillWitness fillWitness_inv (.cellFillTr 0)
-  simp [written, render, α, fillWitness] at this
+theorem C03_written_all : C03_written_statement := fun p hI k => C03_written p hI k
 
 /-! ## valid edits are accepted -/
 
@@ -972,7 +922,6 @@ def demo : Problem where
   nunis := 0
   surfKind := fun _ => .generic
   nconst := fun _ => 0
-  fillParens := fun _ => false
 
 theorem demo_inv : Inv demo := by
   constructor
@@ -993,7 +942,7 @@ theorem demo_inv : Inv demo := by
     rfl
 
 example : Inv demo := demo_inv
-example : FillTransformsHadParens demo := by intro i u t h; simp [demo] at h
+example : ∀ k, written demo k = render (α demo) k := C03_written demo demo_inv
 theorem demo_valid : Valid demo (.importance 0 "n" (.float 2)) := by
   simp [Valid, inRange, demo, modeParts]; decide
 example : Valid demo (.volume 0 (.float 3)) := by simp [Valid, inRange, demo]; decide
